@@ -41,9 +41,16 @@ fn build_filter_msg(kinds: &[&str], bad: Option<usize>, id: &[u8; 12]) -> Vec<u8
             match *k {
                 "MI" => Item::Mi(key.clone(), wrong),
                 "SHA" => Item::Sha(key.clone(), wrong),
+                "FP" if wrong && salt % 2 == 0 => Item::Raw(obs::T_FP, vec![0x12, 0x34, 0x56, 0x78, 0x9A]),
                 "FP" => Item::Fp(wrong),
                 // a registered attribute whose value does not decode (SOFTWARE that is not UTF-8)
                 "BAD" => Item::Raw(obs::T_SOFTWARE, vec![b'x', 0xC3, 0x28, b'y', i as u8]),
+                "UNK" if (i + salt) % 4 == 3 => Item::Raw(
+                    // unregistered types that differ from MESSAGE-INTEGRITY / -SHA256 / FINGERPRINT only in
+                    // the comprehension bit
+                    [0x8008u16, 0x801C, 0x0028][(i + salt / 4) % 3],
+                    (0..(i % 6)).map(|j| (0xB0 + i + j) as u8).collect(),
+                ),
                 "UNK" => Item::Raw(
                     0x7F00 + i as u16,
                     (0..(i % 6)).map(|j| (0xA0 + i + j) as u8).collect(),
@@ -202,6 +209,21 @@ fn cmd_filter(args: &[String]) {
     for len in 1..=maxlen {
         for s in all_seqs(&kinds, len) {
             emit(&s, &mut rng, &mut n);
+            nseq += 1;
+        }
+    }
+    {
+        // many attributes of one role in one message (counts, not kinds)
+        let rep = |k: &'static str, n: usize| -> Vec<&'static str> { std::iter::repeat(k).take(n).collect() };
+        let mut longs: Vec<Vec<&'static str>> = vec![rep("O", 40), rep("FP", 12), rep("MI", 10), rep("SHA", 10)];
+        let mut v = vec!["O", "MI"]; v.extend(rep("O", 40)); v.push("FP"); longs.push(v);
+        let mut v = vec!["MI", "SHA", "FP"]; v.extend(rep("O", 35)); longs.push(v);
+        if flag(args, "--unk") {
+            longs.push(rep("UNK", 24));
+            let mut v = vec!["FP"]; v.extend(rep("UNK", 20)); longs.push(v);
+        }
+        for s in &longs {
+            emit(s, &mut rng, &mut n);
             nseq += 1;
         }
     }
